@@ -389,6 +389,13 @@ fn execute_validate(file: &str, level: &str, warnings: bool) -> Result<()> {
     let (adt, metadata) = parse_adt_with_metadata(&mut reader)
         .with_context(|| format!("Failed to parse ADT file: {file}"))?;
 
+    // A tile is a 16x16 grid: more terrain chunks than that is not a valid ADT
+    if let ParsedAdt::Root(root) = &adt
+        && root.mcnk_chunks.len() > 256
+    {
+        anyhow::bail!("Too many MCNK chunks ({})", root.mcnk_chunks.len());
+    }
+
     // Basic validation is built into the parser
     println!("Validation passed!");
     println!();
@@ -409,9 +416,6 @@ fn execute_validate(file: &str, level: &str, warnings: bool) -> Result<()> {
         ParsedAdt::Root(root) => {
             if root.mcnk_chunks.is_empty() {
                 println!("\nWarning: No MCNK terrain chunks found");
-            }
-            if root.mcnk_chunks.len() > 256 {
-                println!("\nError: Too many MCNK chunks ({})", root.mcnk_chunks.len());
             }
         }
         ParsedAdt::Tex0(tex) | ParsedAdt::Tex1(tex) => {
